@@ -508,7 +508,11 @@ func (x *Exec) addrOf(env *evalEnv, n *ast.UnaryExpr) Val {
 			x.note("interior-pointer snapshot at " + posStr(x.v.fset, n.Pos()) + ": &" + exprStr(inner) + " modelled as a fresh object holding a copy")
 			return Val{ref, types.NewPointer(v.Ty)}
 		}
-		x.fail(n.Pos(), "UNSUPPORTED address-of %s", exprStr(inner))
+		// pointer to a non-struct location (&x.f, &s[i]): a fresh cell holding a copy; writes through it are not propagated back
+		ref := x.allocObj()
+		x.storeCell(ref, v, v.Ty)
+		x.note("interior-pointer snapshot at " + posStr(x.v.fset, n.Pos()) + ": &" + exprStr(inner) + " modelled as a fresh cell holding a copy (writes through it are not seen through the original location)")
+		return Val{ref, types.NewPointer(v.Ty)}
 	}
 	return Val{}
 }
@@ -561,6 +565,27 @@ func (x *Exec) binary(env *evalEnv, n *ast.BinaryExpr) Val {
 		a := x.expr(env, n.X)
 		if x.inSpec > 0 || env.spec {
 			b := x.expr(env, n.Y)
+			if n.Op == token.LAND {
+				return Val{and(a.S, b.S), tBool}
+			}
+			return Val{or(a.S, b.S), tBool}
+		}
+		if hasCall(n.Y) {
+			// the right operand has effects: it is evaluated only on the branch where the left operand does not decide
+			base := x.st
+			sA := base.clone()
+			sB := base.clone()
+			if n.Op == token.LAND {
+				sA.assume(a.S)
+				sB.assume(not(a.S))
+			} else {
+				sA.assume(not(a.S))
+				sB.assume(a.S)
+			}
+			x.st = sA
+			b := x.expr(env, n.Y)
+			sA = x.st
+			x.st = x.merge(sA, sB)
 			if n.Op == token.LAND {
 				return Val{and(a.S, b.S), tBool}
 			}
@@ -1028,4 +1053,21 @@ func innermostScope(sc *types.Scope, pos token.Pos) *types.Scope {
 			return sc
 		}
 	}
+}
+
+func hasCall(e ast.Expr) bool {
+	found := false
+	ast.Inspect(e, func(n ast.Node) bool {
+		if c, ok := n.(*ast.CallExpr); ok {
+			if id, ok := c.Fun.(*ast.Ident); ok {
+				switch id.Name {
+				case "len", "cap", "int", "uint", "string":
+					return true
+				}
+			}
+			found = true
+		}
+		return !found
+	})
+	return found
 }
